@@ -119,6 +119,11 @@ func VC02_fresh() {
 	if vrt.Bool() {
 		vuAddCountFile(u, "a", begin+3, end, vuBuilds[1], map[string]uint64{"d": 1})
 	}
+	// the week may already have been uploaded by an earlier run
+	already := vrt.Bool()
+	if already {
+		vos.AddFile(vuDir+"/upload/"+vrt.DateStr(end)+".json", []byte("U"))
+	}
 	vos.Events = nil
 	err := u.Run()
 	vrt.Assert(err == nil, "run succeeds")
@@ -141,6 +146,11 @@ func VC02_fresh() {
 	}
 	if !expired {
 		vrt.Assert(c2dataEvents() == 0 && len(vhttp.Log) == 0, "an unfinished week is left alone")
+		return
+	}
+	if already {
+		vrt.Assert(len(vhttp.Log) == 0 && !c2created(local) && !c2created(ready), "a week that was already uploaded is neither reported nor sent again")
+		vrt.Assert(vuContent(vuDir+"/upload/"+week+".json") == "U", "the uploaded copy is unchanged")
 		return
 	}
 	vrt.Reach("expired")
